@@ -323,3 +323,101 @@ def rbf_predicate(c):
             f.append(("C17_rbf_locktime_refuted",
                       "witness: BlockHeight 7 no longer makes the closee reject the offer: %s" % lasts))
     return f
+
+
+# ====================================================================
+# legacy flow: ENTRY orderings (Coop/EntryModel.v, EntryExec.v)
+
+ENTRY_IMPORTS = ("From Coq Require Import List ZArith NArith Bool.\nImport ListNotations.\n"
+                 "From LV Require Import Coop.Model Coop.EntryModel Coop.EntryInst Coop.EntryExec.\n")
+
+
+def centry_event(e):
+    k = e["e"]
+    if k == "ShutdownChan":
+        return "CShutdownChan"
+    if k == "ReceiveShutdown":
+        return "CReceiveShutdown"
+    if k == "BeginNegotiation":
+        return "CBeginNegotiation"
+    if k == "ReceiveCs":
+        return "(CReceiveCs %s)" % cz(e["fee"])
+    raise ValueError(k)
+
+
+def centry_calls(calls):
+    items = []
+    for c in calls:
+        obs = "(mkObs %s %s %s %s [%s] [%s])" % (
+            cz(c["err"]), cz(c["phase"]), copt(c["cache"], cz), cz(c["last"]),
+            "; ".join(cz(x) for x in c["prior"]), "; ".join(cz(x) for x in c["outs"]))
+        items.append("(%s, %s)" % (centry_event(c["ev"]), obs))
+    return "[" + ";\n ".join(items) + "]"
+
+
+def entry_terms(c):
+    if c["k"] != "entry":
+        return []
+    # vIdentityEstimator: cfg.MaxFee 0 -> default cap 3x ideal
+    return [("O", "CEntry true %s %s 0 %s %s" % (cbool(c["tap"]), cz(c["io"]), cz(c["afford"]),
+                                                centry_calls(c["callsO"]))),
+            ("R", "CEntry false %s %s 0 %s %s" % (cbool(c["tap"]), cz(c["ir"]), cz(c["afford"]),
+                                                 centry_calls(c["callsR"])))]
+
+
+def entry_pow_bound(lo, hi):
+    n, a, b = 0, 100 * hi, 129 * lo
+    while a > b:
+        a *= 1000
+        b *= 1091
+        n += 1
+    return n
+
+
+def entry_predicate(c):
+    """Honest orderings (no duplicated message): whatever the interleaving of the
+    entry events, both sides end with the byte-identical fully signed tx at a fee
+    both signed for within the proved number of messages; no honest message is
+    dropped or rejected."""
+    f = []
+    if c["dup"]:
+        return f
+    th = "C17_entry_terminates"
+    order = " ".join(c["order"])
+    if c["stuck"]:
+        f.append((th, "ordering %s could not be executed: %s" % (order, c["stuck"])))
+    lo, hi = min(c["io"], c["ir"]), max(c["io"], c["ir"])
+    realistic = lo >= 100 and hi <= c["maxO"] and hi <= c["afford"]
+    errs = [(nm, call) for nm in ("O", "R") for call in c["calls" + nm] if call["err"] != 0]
+    # the entry calls never fail between honest nodes; a negotiation call may only
+    # fail outside the hypotheses of the theorem (fee above the opener's cap)
+    for nm, call in errs:
+        if call["ev"]["e"] != "ReceiveCs" or realistic or c["tap"]:
+            f.append((th, "ordering [%s]: %s's %s failed: %s" % (order, nm, call["ev"]["e"], call["msg"])))
+    if errs:
+        return f
+    if c["inflight"] or c["sent"] != c["delivered"]:
+        f.append((th, "ordering [%s]: %d message(s) left undelivered" % (order, c["inflight"])))
+    if not (c["finO"] and c["finR"]):
+        if realistic or c["tap"]:
+            f.append((th, "ordering [%s]: negotiation did not finish (states %d/%d): an honest "
+                          "closing_signed was swallowed" % (order, c["stateO"], c["stateR"])))
+        return f
+    if not c["txO"] or c["txO"] != c["txR"]:
+        f.append((th, "ordering [%s]: closing transactions differ or missing" % order))
+    if not c["engine"]:
+        f.append((th, "ordering [%s]: script engine rejects the closing tx" % order))
+    if c.get("nOuts") == 2:
+        fee = c["txFee"]
+        if fee not in c["priorO"] or fee not in c["priorR"]:
+            f.append((th, "ordering [%s]: tx fee %d not signed for by both" % (order, fee)))
+        if not c["tap"] and not lo <= fee <= hi:
+            f.append((th, "ordering [%s]: fee %d outside [%d,%d]" % (order, fee, lo, hi)))
+    if c["nBroadcastO"] != 1 or c["nBroadcastR"] != 1:
+        f.append((th, "ordering [%s]: broadcast count %d/%d" % (order, c["nBroadcastO"], c["nBroadcastR"])))
+    ncs = sum(1 for nm in ("O", "R") for call in c["calls" + nm]
+              if call["ev"]["e"] == "ReceiveCs" and call["phase"] >= 3)
+    if realistic and not c["tap"] and ncs > entry_pow_bound(lo, hi) + 4:
+        f.append((th, "ordering [%s]: %d closing_signed processed > bound %d"
+                  % (order, ncs, entry_pow_bound(lo, hi) + 4)))
+    return f
